@@ -134,6 +134,21 @@ example : (Matrix.fromFlatRowMajor 2 3 (List.range 6)).isSome = true ∧
     Matrix.fromFlatRowMajor (2 ^ 63 + 1) 2 [1, 2] = none ∧
     matrixEmpty (2 ^ 63) 2 7 = none := by decide
 
+/-- **`leaf_inv`** in one statement: whatever safe calls are made on a tensor or a matrix that
+    satisfies the invariant — any operations, any arguments, panics caught and the object used
+    again, for any finite history — the object keeps `stored elements = Π lengths` (resp.
+    `rows·columns`), unique names and lengths ≥ 1 (resp. at least 1×1). -/
+theorem leaf_inv [Inhabited ν] :
+    (∀ (t : Tensor ν α), TInv t → ∀ ops : List (Op ν α),
+      (run t ops).data.length = elements (run t ops).shape ∧
+        ((run t ops).shape.map (·.1)).Nodup ∧ ∀ d ∈ (run t ops).shape, 1 ≤ d.2) ∧
+    (∀ (m : Matrix α), m.Inv → ∀ ops : List (Matrix.Op α),
+      (m.run ops).data.length = (m.run ops).rows * (m.run ops).columns ∧
+        1 ≤ (m.run ops).rows ∧ 1 ≤ (m.run ops).columns) := by
+  refine ⟨fun t ht ops => ?_, fun m hm ops => (C11.history_refines m hm ops).1⟩
+  have h := run_inv t ht ops
+  exact ⟨h.1, h.2.1, h.2.2.1⟩
+
 /-! ## `iter_unchecked_inBounds`: the iterators call the unchecked accessors only inside the shape -/
 
 /-- Every element iterator (copying, reference, mutable reference, owned — they differ only in
